@@ -4,11 +4,15 @@
 package main
 
 import (
+	"bufio"
+	"bytes"
 	"flag"
 	"fmt"
 	"hash/fnv"
+	"io"
 	"os"
 	"strings"
+	"testing/iotest"
 	"time"
 )
 
@@ -43,6 +47,66 @@ func safeExec(a *area, cfg *config, op string) (out string) {
 	}()
 	defer ambient(cfg.area, op)()
 	return a.exec(cfg, op)
+}
+
+// chunkReader hands out at most n bytes per Read (short reads are legal for any io.Reader).
+type chunkReader struct {
+	r io.Reader
+	n int
+}
+
+func (c *chunkReader) Read(p []byte) (int, error) {
+	if len(p) > c.n {
+		p = p[:c.n]
+	}
+	return c.r.Read(p)
+}
+
+// shortSeeker: an io.ReadSeeker with short reads
+type shortSeeker struct {
+	io.ReadSeeker
+	n int
+}
+
+func (c *shortSeeker) Read(p []byte) (int, error) {
+	if len(p) > c.n {
+		p = p[:c.n]
+	}
+	return c.ReadSeeker.Read(p)
+}
+
+func caseHash(op string) uint64 {
+	h := fnv.New64a()
+	h.Write([]byte(op))
+	return h.Sum64()
+}
+
+// readerFor: the bytes of a case behind one of several legal kinds of reader, chosen by a hash of
+// the bytes (a result may not depend on how the reader hands its bytes out): a memory reader, one
+// byte at a time, half of what is asked for, five bytes at a time, data returned together with
+// EOF, a small buffered reader, or the read end of an operating-system pipe.
+func readerFor(data []byte, pipeOK bool) (io.Reader, func()) {
+	v := caseHash(string(data)) >> 16
+	switch v % 8 {
+	case 1:
+		return iotest.OneByteReader(bytes.NewReader(data)), func() {}
+	case 2:
+		return iotest.HalfReader(bytes.NewReader(data)), func() {}
+	case 3:
+		return &chunkReader{bytes.NewReader(data), 5}, func() {}
+	case 4:
+		return iotest.DataErrReader(bytes.NewReader(data)), func() {}
+	case 5:
+		return bufio.NewReaderSize(bytes.NewReader(data), 16), func() {}
+	case 6:
+		if pipeOK && len(data) < 1<<20 {
+			if r, w, err := os.Pipe(); err == nil {
+				go func() { w.Write(data); w.Close() }()
+				return r, func() { r.Close() }
+			}
+		}
+	}
+	return bytes.NewReader(data), func() {}
 }
 
 // ambient gives every case an environment of its own, chosen by a hash of the case (so that a
